@@ -155,7 +155,13 @@ def expect(g, tb, data, skip_ws=True, skip_nl=True, ctx_mode=None, matchers=None
                 else:
                     v = fresh(); ev.append('D%d(%s)=%d;' % (TAG[vt], ''.join(args), v)); node_val[id(node)] = v
             elif rule.ftor[0] == 'e' and rule.ftor[1:].isdigit():
-                node_val[id(node)] = kid_val(node.kids[int(rule.ftor[1:]) - 1])      # _eK forwards the K-th value, no functor event
+                kk = node.kids[int(rule.ftor[1:]) - 1]
+                if kk.rule is not None: node_val[id(node)] = kid_val(kk)      # _eK forwards the K-th value, no functor event
+                else: node_val[id(node)] = ord(g.terms[kk.term].text)         # long constructed from term_value<char>
+            elif rule.ftor[0] == 'c':
+                other = rule.ftor[1:]
+                v1 = fresh(); ev.append('r%d(%s)=%d;' % (r, ''.join(args), v1))
+                v = fresh(); ev.append('D%d(%s%d,)=%d;' % (TAG[vt], 'i' if other == 'I' else 'v', v1, v)); node_val[id(node)] = v
             else:
                 node_val[id(node)] = None
             trace.append(('red', r)); trace.append(('goto', sm(a[2])))
